@@ -73,6 +73,9 @@ func (p *PerHost) dialerForRequest(host string) Dialer {
 		return p.def
 	}
 
+	// AddZone and AddHost store names without the trailing dot of a
+	// fully qualified name; compare the dialed name the same way.
+	host = strings.TrimSuffix(host, ".")
 	for _, zone := range p.bypassZones {
 		if strings.HasSuffix(host, zone) {
 			return p.bypass
